@@ -1,5 +1,5 @@
 From Coq Require Import Extraction ExtrOcamlBasic ExtrOcamlString NArith.
-From Oras Require Import Model.OciIndex.
+From Oras Require Import Model.OciIndex Model.TarFS.
 Extraction Language OCaml.
 (* N.of_nat only so that the types positive / n used by ml/common.ml exist *)
-Extraction "xc08.ml" step reopen store_empty obs_tags obs_resolve_tag obs_resolve_dig obs_exists obs_preds disk_valid ord0 N.of_nat.
+Extraction "xc08.ml" step reopen store_empty obs_tags obs_tags_from gc_sweeps_stray obs_resolve_tag obs_resolve_dig obs_exists obs_preds disk_valid ord0 tar_open N.of_nat.
